@@ -9,7 +9,8 @@ ENTRY = {'coq_dir': 'C10',
             'SCORE_PUBLIC_ADDRESS_BONUS',
             'C10_DIAL_ERROR_LEAVES',
             'C10_ERROR_SCORE_ARMS',
-            'C10_STORE_SITES'],
+            'C10_STORE_SITES',
+            'C10_ENTRY_SITES'],
  'rule': 'every run starts with 43 systematic cases: (failure or success path: update_address_on_dial_failure, dial_address + DialFailure event, '
          'dial(peer) + OpenFailure events, dial(peer) + ConnectionOpened with errors, update_address_on_connection_established, dial_address + '
          'ConnectionEstablished) x (score of the address beforehand: untested private 0, untested global +1, established 100, failed -100, banned '
